@@ -146,6 +146,25 @@ impl World {
         f.append(&size_prefix.to_le_bytes());
         f.append(raw)
     }
+    /// The four bytes in front of every stored block's length field are whatever the writing node's network uses (regtest,
+    /// signet, testnet4 and private forks have magics of their own) - the parser is told the coin for the SCRIPT rules and finds
+    /// the blocks through the index. Replaces every occurrence of the coin's magic in the files written so far.
+    pub fn replace_magic(&mut self, magic: [u8; 4]) {
+        let old = self.coin.magic.to_le_bytes();
+        for f in self.files.values_mut() {
+            for (_, c) in f.chunks.iter_mut() {
+                let mut i = 0;
+                while i + 4 <= c.len() {
+                    if c[i..i + 4] == old {
+                        c[i..i + 4].copy_from_slice(&magic);
+                        i += 4;
+                    } else {
+                        i += 1;
+                    }
+                }
+            }
+        }
+    }
     pub fn put_rec(&mut self, r: &IndexRec) {
         self.index_ops.push(IndexOp::Put(r.key(), r.value()));
     }
